@@ -316,7 +316,7 @@ def r6(c):
     else:
         c.holds("C12.R6", repo.loc(m, loop), "irun/dequeued-result-delivered", "every dequeued result is yielded before break / next iteration")
     ir = repo.func(MOD, "invoke_retry", canon=False)
-    tsr = Typestate(lambda node, st, t_: [st])
+    tsr = Typestate(lambda node, st, t_: [st], may_raise=lambda st_: any(isinstance(x, ast.Call) for x in ast.walk(st_)))
     rr = tsr.run(ir.body, "s")
     ok = not rr["fall"]
     c.check("C12.R6", ok, repo.loc(m, ir), "invoke_retry/returns-or-raises", "some path through invoke_retry falls off the end (returns None): a task that keeps failing with a connection error is "
